@@ -256,6 +256,7 @@ htp_status_t htp_mpart_part_parse_c_d(htp_multipart_part_t *part) {
                 part->file->filename = bstr_dup_mem(data + start, pos - start - 1);
                 if (part->file->filename == NULL) {
                     free(part->file);
+                    part->file = NULL;
                     return HTP_ERROR;
                 }
 
